@@ -121,7 +121,7 @@ def In.noLoss : In → Bool
   | .seqUpdate _ _ _ _ _ => false
   | _ => true
 
-/-! ### the batch loop of getTxReceipts / getEVMEvent (which blocks of a range go into one payload) -/
+/-! ### the batch loop of getTxReceipts (`batchNew`; getEVMEvent still has the old rule `batchOld`, pinned by Test_PostEVMEvent_bigsize) — which blocks of a range go into one payload -/
 
 /-- one block of a range as the loop sees it: `none` — no matching transaction; `some size` — the size
 of its per-block message. -/
